@@ -136,7 +136,24 @@ func (e *Enc) eval(sc *Scope, x CExpr, hint types.Type) Val {
 					return v
 				}
 			}
-			panic(unsupported("contract expression " + x.String() + " (& needs an address-taken local)"))
+			// &p.f: the address of a field of the struct p points to
+			if sel, ok := n.X.(*CSel); ok {
+				base := e.eval(sc, sel.X, nil)
+				if base.Typ != nil {
+					if pt, isPtr := base.Typ.Underlying().(*types.Pointer); isPtr {
+						if stt, isSt := pt.Elem().Underlying().(*types.Struct); isSt {
+							for fi := 0; fi < stt.NumFields(); fi++ {
+								if stt.Field(fi).Name() == sel.Name {
+									space, root, prefix, idxs, glob := e.ptrParts(base)
+									ft := stt.Field(fi).Type()
+									return Val{Typ: types.NewPointer(ft), L: base.L, P: &PtrInfo{Space: space, Root: root, Prefix: prefix + "." + fieldName(stt, fi), Idxs: idxs, Glob: glob}}
+								}
+							}
+						}
+					}
+				}
+			}
+			panic(unsupported("contract expression " + x.String() + " (& needs an address-taken local or a field of a pointed-to struct)"))
 		}
 	case *CBin:
 		return e.evalBin(sc, n, hint)
@@ -731,6 +748,10 @@ func (e *Enc) selectField(sc *Scope, base Val, name string) Val {
 	}
 	// ghost field of a named (interface) type: specification-only mutable state keyed by the value
 	if gf := e.prog.ghostField(base.Typ, name); gf != nil {
+		if _, isStruct := base.Typ.Underlying().(*types.Struct); isStruct {
+			// a struct VALUE has no identity to key ghost state by; an addressable local is written (&x).f
+			panic(unsupported("ghost field ." + name + " of a struct value: write (&x)." + name + " for an addressable local"))
+		}
 		h, _, _ := e.ghostFieldHeap(sc, sc.st, base.Typ, gf)
 		gt := e.ghostFieldType(sc, gf)
 		return Val{Typ: gt, L: []T{Select(h, base.L[0])}}
